@@ -221,7 +221,17 @@ def ring_table(F, axis="X"):
     return {f: {axis: (((f - 1) % F, axis, False), ((f + 1) % F, axis, False))} for f in range(F)}
 
 
-def check_table(table, kind, Wv, rules, N=4, extra="none"):
+def listed(table, face_order=None, axis_order=None):
+    """the same table with faces / axes LISTED in another order (dict insertion order) - equal as a mapping"""
+    faces = list(face_order) if face_order is not None else list(table)
+    out = {}
+    for f in faces:
+        axes = [a for a in (axis_order or list(table[f])) if a in table[f]]
+        out[f] = {a: table[f][a] for a in axes}
+    return out
+
+
+def check_table(table, kind, Wv, rules, N=4, extra="none", face_order=None, axis_order=None, return_output=False):
     """real Grid (through the real constructor), real xarray, real pad on the whole table; every non-corner cell of EVERY face is
     compared with the specification clauses of C05 evaluated on numbers.  Returns (list of mismatch texts, cells compared)."""
     import xarray as xr
@@ -249,13 +259,17 @@ def check_table(table, kind, Wv, rules, N=4, extra="none"):
         arg, oc = {"Y": mk("yl", "x", 0.25, 1)}, {"X": mk("y", "xl", 0.5, -1)}
     ds = xr.Dataset(coords={d: np.arange(n) for d, n in {"x": N, "xl": N, "y": N, "yl": N, "face": F, "t": T, "z": Z}.items()})
     grid = xgcm.Grid(ds, coords={"X": {"center": "x", "left": "xl"}, "Y": {"center": "y", "left": "yl"}}, periodic=False,
-                     face_connections={"face": {f: dict(d) for f, d in table.items()}}, autoparse_metadata=False)
+                     face_connections={"face": listed(table, face_order, axis_order)}, autoparse_metadata=False)
     try:
         out = P.pad(arg, grid, boundary_width=dict(Wv), boundary=dict(rules), fill_value=dict(fillv), other_component=oc)
     except Exception as e:  # noqa
+        if return_output:
+            return f"raised {type(e).__name__}"
         return [f"REAL CODE RAISED {type(e).__name__}: {e}"], 0
     if isinstance(out, dict):
         (out,) = out.values()
+    if return_output:
+        return out
     mism, ncmp = [], 0
     mods = util.xgcm_modules()
     for gi in range(F):
